@@ -28,99 +28,191 @@ def _num(s):
     return int(s, 0)
 
 
+# The flow-control facts of h2.rs / converter.rs / stream.rs / mod.rs the model rests on and the in-process
+# correspondence cannot reach (they live inside ConnectionH2).  Each is (file, function, [alternative patterns],
+# message); patterns are matched on the NORMAL FORM of the function (tools/rsfacts.py: comments and layout gone,
+# named constants and constant arithmetic replaced by their value, immutable `let` bindings inlined, logging and
+# debug assertions dropped), in the function or one level of same-file helpers it calls.  `$x` stands for any
+# identifier (a local, a private field or helper name), `...` for a short run of tokens.
+WIN = "* $_ ... . window"          # the stream send window reached through the stream's parts
+FACTS = [
+    ("h2", "write_streams",
+     ["$c . window = min ( * ... . window , self . flow_control . window ) ;",
+      "$c . window = min ( self . flow_control . window , * ... . window ) ;",
+      "$c . window = ( * ... . window ) . min ( self . flow_control . window ) ;"],
+     "write_streams no longer budgets DATA with min(stream window, connection window)"),
+    ("h2", "write_streams",
+     ["$consumed = min ( ...{60} ) - $c . window ; * ...{30} . window = ...{30} . window . saturating_sub ( $consumed ) ; "
+      "self . flow_control . window = self . flow_control . window . saturating_sub ( $consumed ) ;",
+      "$consumed = min ( ...{60} ) - $c . window ; self . flow_control . window = self . flow_control . window . saturating_sub ( $consumed ) ; "
+      "* ...{30} . window = ...{30} . window . saturating_sub ( $consumed ) ;"],
+     "write_streams no longer subtracts the consumed bytes from both the stream and the connection window"),
+    ("h2", "write_streams",
+     ["max_frame_size : self . peer_settings . settings_max_frame_size as usize"],
+     "write_streams no longer hands the peer's SETTINGS_MAX_FRAME_SIZE to the converter"),
+    ("h2", "handle_window_update_frame",
+     ["if $w . increment == 0 { if $w . stream_id == 0 { return self . goaway ( H2Error :: ProtocolError ) ;",
+      "if 0 == $w . increment { if $w . stream_id == 0 { return self . goaway ( H2Error :: ProtocolError ) ;"],
+     "handle_window_update_frame: zero increment on stream 0 is no longer GOAWAY(PROTOCOL_ERROR)"),
+    ("h2", "handle_window_update_frame",
+     ["self . flow_control . window . checked_add ( i32 :: try_from ( $w . increment ) . unwrap_or ( 2147483647 ) )"],
+     "handle_window_update_frame no longer uses checked_add on the connection window"),
+    ("h2", "handle_window_update_frame",
+     ["$sw . checked_add ( i32 :: try_from ( $w . increment ) . unwrap_or ( 2147483647 ) ) ...{40} * $sw =",
+      "backend_window ...{30} . checked_add ( i32 :: try_from ( $w . increment ) . unwrap_or ( 2147483647 ) )"],
+     "handle_window_update_frame no longer uses checked_add on the stream window"),
+    ("h2", "handle_window_update_frame",
+     ["self . flow_control . window . checked_add ( ...{20} ) { ...{40} } else { return self . goaway ( H2Error :: FlowControlError ) ; }",
+      "self . flow_control . window . checked_add ( ...{20} ) ...{12} None => ...{4} return self . goaway ( H2Error :: FlowControlError )"],
+     "handle_window_update_frame: connection window overflow is no longer GOAWAY(FLOW_CONTROL_ERROR)"),
+    ("h2", "handle_window_update_frame",
+     ["if self . flow_control . window <= 0 && $n > 0 { self . readiness . arm_writable ( ) ; }",
+      "if $n > 0 && self . flow_control . window <= 0 { self . readiness . arm_writable ( ) ; }"],
+     "handle_window_update_frame no longer arms WRITABLE when the connection window becomes positive"),
+    ("h2", "handle_window_update_frame",
+     ["if * $sw <= 0 && $n > 0 { self . readiness . arm_writable ( ) ; }",
+      "if $n > 0 && * $sw <= 0 { self . readiness . arm_writable ( ) ; }"],
+     "handle_window_update_frame no longer arms WRITABLE when a stream window becomes positive"),
+    ("h2", "handle_window_update_frame",
+     ["$sw = if self . position . is_client ( ) { & mut ...{12} . backend_window } else { & mut ...{12} . window } ;",
+      "$sw = match self . position { Position :: Client ( .. ) => & mut ...{12} . backend_window , Position :: Server => & mut ...{12} . window"],
+     "handle_window_update_frame no longer picks the window of its own direction"),
+    ("h2", "update_initial_window_size",
+     ["if $v > 2147483647 { return true ; }", "if 2147483647 < $v { return true ; }", "if $v >= 2147483648 { return true ; }"],
+     "update_initial_window_size no longer rejects values above 2^31-1"),
+    ("h2", "update_initial_window_size",
+     ["match $sw . checked_add ( ...{40} ) { Some ( $nw ) => { $open |= * $sw <= 0 && $nw > 0 ; * $sw = $nw ; }",
+      "if let Some ( $nw ) = $sw . checked_add ( ...{40} ) { $open |= * $sw <= 0 && $nw > 0 ; * $sw = $nw ; }"],
+     "update_initial_window_size no longer applies the delta with checked_add to every stream"),
+    ("h2", "update_initial_window_size",
+     ["$sw . checked_add ( ...{40} ) { ...{40} None => return true", "$sw . checked_add ( ...{40} ) { ...{40} } else { return true"],
+     "update_initial_window_size no longer reports a stream-window overflow as an error"),
+    ("h2", "update_initial_window_size",
+     ["if $open { self . readiness . arm_writable ( ) ; }"],
+     "update_initial_window_size no longer arms WRITABLE when a SETTINGS change re-opens a stream window"),
+    ("h2", "handle_settings_frame",
+     ["if self . update_initial_window_size ( ...{8} ) { ...{8} return self . goaway ( H2Error :: FlowControlError ) ;"],
+     "handle_settings_frame: an invalid SETTINGS_INITIAL_WINDOW_SIZE is no longer GOAWAY(FLOW_CONTROL_ERROR)"),
+    ("h2", "handle_settings_frame",
+     ["! ( 16384 .. 16777216 ) . contains ( & $s . value )", "! ( 16384 ..= 16777215 ) . contains ( & $s . value )",
+      "$s . value < 16384 || $s . value >= 16777216", "$s . value < 16384 || $s . value > 16777215"],
+     "handle_settings_frame no longer validates SETTINGS_MAX_FRAME_SIZE against [2^14, 2^24-1]"),
+    ("h2", "handle_settings_frame",
+     ["SETTINGS_MAX_CONCURRENT_STREAMS => { self . peer_settings . settings_max_concurrent_streams = $s . value ;"],
+     "handle_settings_frame no longer stores the peer's MAX_CONCURRENT_STREAMS as announced"),
+    ("h2", "start_stream",
+     ["if self . streams . len ( ) >= self . peer_settings . settings_max_concurrent_streams as usize {",
+      "if self . peer_settings . settings_max_concurrent_streams as usize <= self . streams . len ( ) {"],
+     "start_stream no longer tests the peer's MAX_CONCURRENT_STREAMS"),
+    ("h2", "start_stream",
+     ["* ...{14} . window = i32 :: try_from ( self . peer_settings . settings_initial_window_size ) . unwrap_or ( 2147483647 ) ;"],
+     "start_stream no longer initialises the stream's send window from this peer's SETTINGS_INITIAL_WINDOW_SIZE"),
+    ("h2", "queue_window_update",
+     ["* $e = $e . saturating_add ( $inc ) . min ( 2147483647 ) ;", "* $e = ( * $e ) . saturating_add ( $inc ) . min ( 2147483647 ) ;",
+      "* $e = min ( $e . saturating_add ( $inc ) , 2147483647 ) ;"],
+     "queue_window_update no longer coalesces with saturation at 2^31-1"),
+    ("stream", "split",
+     ["Position :: Client ( .. ) => StreamParts { window : & mut self . backend_window ,"],
+     "Stream::split no longer gives a backend connection its own send window"),
+    ("h2", "handle_data_frame",
+     ["if let StreamState :: Linked ( $t ) = ...{14} { ...{4} $ep . readiness_mut ( $t ) . arm_writable ( ) ;"],
+     "handle_data_frame no longer arms WRITABLE on the linked endpoint when it queues body bytes for it"),
+    ("h2", "handle_data_frame",
+     ["self . flow_control . received_bytes_since_update += $wire ; if self . flow_control . received_bytes_since_update >= ...{12} { "
+      "self . queue_window_update ( 0 , self . flow_control . received_bytes_since_update ) ; self . flow_control . received_bytes_since_update = 0 ;"],
+     "handle_data_frame no longer credits the connection window with the whole wire payload (padding included) of every DATA frame "
+     "(on both paths: known stream, and stream already gone)", 2),
+    ("h2", "handle_data_frame",
+     ["if ! $d . end_stream { if ...{30} { self . queue_window_update ( $d . stream_id , $wire ) ; } else { "
+      "* self . recv_credit_owed . entry ( $d . stream_id ) . or_insert ( 0 ) += $wire ; }"],
+     "handle_data_frame no longer owes the stream the whole wire payload (padding included) of a DATA frame (credited at once only when the payload is discarded)"),
+    ("h2", "new",
+     ["settings_initial_window_size : 65535 . min ( ...{30} . capacity ( ) as u32 )", "settings_initial_window_size : ( ...{30} . capacity ( ) as u32 ) . min ( 65535 )",
+      "settings_initial_window_size : min ( 65535 , ...{30} . capacity ( ) as u32 )"],
+     "ConnectionH2::new no longer announces a stream window of at most the stream buffer capacity"),
+    ("h2", "release_stream_credit",
+     ["( ( match self . position { Position :: Client ( .. ) => & ...{8} . back , Position :: Server => & ...{8} . front , } ) . storage . available_space ( ) as u32 ) "
+      ". saturating_sub ( self . local_settings . settings_initial_window_size . saturating_sub ( * $owed ) ) . min ( * $owed ) > 0 { * $owed -="],
+     "release_stream_credit no longer grants min(owed, free space of the buffer read into - the peer's remaining window)"),
+    ("h2", "release_stream_credit",
+     ["for & ( $sid , $g ) in & $grants { self . queue_window_update ( $sid , $g ) ; }",
+      "for ( $sid , $g ) in $grants { self . queue_window_update ( $sid , $g ) ; }"],
+     "release_stream_credit no longer queues the WINDOW_UPDATE of what it grants"),
+    ("h2", "try_resume_reading",
+     ["self . release_stream_credit ( $ctx )"],
+     "try_resume_reading (run after the other side of the session wrote) no longer releases stream credit"),
+    ("h2", "write_streams",
+     ["if self . wire_opened . len ( ) >= ( self . peer_settings . settings_max_concurrent_streams as usize ) || ...{40} != Some ( ...{8} ) { continue ; }",
+      "if self . wire_opened . len ( ) >= self . peer_settings . settings_max_concurrent_streams as usize || ...{40} != Some ( ...{8} ) { continue ; }"],
+     "write_streams no longer holds back a backend stream that would exceed the peer's MAX_CONCURRENT_STREAMS"),
+    ("h2", "end_stream",
+     ["self . pending_rst_streams . push ( ( $id , H2Error :: Cancel ) ) ;"],
+     "end_stream on a backend connection no longer queues the RST_STREAM(CANCEL) of a cancelled request"),
+    ("mod", "ready",
+     ["self . frontend . try_resume_reading ("],
+     "Mux::ready no longer lets the frontend resume reading / release credit after a backend wrote"),
+    ("mod", "ready",
+     ["for ( $_ , $b ) in self . router . backends . iter_mut ( ) { ...{60} $b . try_resume_reading ( ...{8} ) ...{30} { all_backends_readiness_are_empty = false ;",
+      "for $b in self . router . backends . values_mut ( ) { ...{60} $b . try_resume_reading ( ...{8} ) ...{30} { all_backends_readiness_are_empty = false ;"],
+     "Mux::ready no longer lets the backends resume reading / release credit after the frontend wrote"),
+    ("mod", "ready",
+     ["if ...{30} { $r . remove ( Ready :: HUP ) ; $r . remove ( Ready :: ERROR ) ; } if ! $r . is_empty ( ) { all_backends_readiness_are_empty = false ;"],
+     "Mux::ready counts the HUP/ERROR bits of a hung-up backend as pending work again (spins until MAX_LOOP_ITERATIONS closes the session)"),
+    ("converter", "call",
+     ["self . window -= i32 :: try_from ( $n ) . unwrap_or ( 2147483647 ) ;"],
+     "converter DATA arm no longer subtracts the payload from its window"),
+]
+
+# named constants of h2.rs, and where the same value can be read by meaning when the name changed
+CONST_BY_MEANING = {
+    "DEFAULT_MAX_CONCURRENT_STREAMS": ("default", "settings_max_concurrent_streams : $v ,"),
+    "DEFAULT_INITIAL_WINDOW_SIZE": ("default", "settings_initial_window_size : $v ,"),
+    "DEFAULT_MAX_FRAME_SIZE": ("default", "settings_max_frame_size : $v ,"),
+    "MIN_MAX_FRAME_SIZE": ("handle_settings_frame", "! ( $v .. $_ ) . contains ("),
+    "MAX_MAX_FRAME_SIZE": ("handle_settings_frame", "! ( $_ .. $v ) . contains ("),
+    "FLOW_CONTROL_MAX_WINDOW": ("update_initial_window_size", "if $_ > $v { return true ; }"),
+}
+
+
 def translate():
-    """T-const (every H2 limit the model uses) + shape checks of the flow-control arithmetic in h2.rs /
-    converter.rs that the in-process correspondence cannot reach (they live inside ConnectionH2)."""
+    """T-const (every H2 limit the model uses) + the flow-control facts of FACTS."""
+    import rsfacts
     fails = []
-    hs = open(os.path.join(MUX, "h2.rs")).read()
-    cs = open(os.path.join(MUX, "converter.rs")).read()
-    ss = open(os.path.join(MUX, "stream.rs")).read()
-    ms = open(os.path.join(MUX, "mod.rs")).read()
-    code = hs.split("\n#[cfg(test)]\nmod tests")[0]
+    srcs = {}
+    for k, f in (("h2", "h2.rs"), ("converter", "converter.rs"), ("stream", "stream.rs"), ("mod", "mod.rs")):
+        try:
+            srcs[k] = rsfacts.Source(os.path.join(MUX, f))
+        except Exception as ex:  # unreadable file: nothing below can be established
+            return ["%s cannot be read: %r" % (f, ex)]
+    h2 = srcs["h2"]
     consts = {}
     for n in H2_CONSTS:
-        m = re.search(r"const\s+%s\s*:\s*u32\s*=\s*([^;]+);" % n, code)
-        if not m:
-            fails.append("h2.rs: constant %s not found" % n)
+        if n in h2.consts:
+            consts[n] = int(h2.consts[n])
             continue
+        where = CONST_BY_MEANING.get(n)
         try:
-            consts[n] = _num(m.group(1))
-        except ValueError:
-            fails.append("h2.rs: constant %s unreadable: %s" % (n, m.group(1)))
-    shapes = [
-        (code, r"let window = min\(\*parts\.window, self\.flow_control\.window\);\s*converter\.window = window;",
-         "write_streams no longer budgets DATA with min(stream window, connection window)"),
-        (code, r"consumed = window - converter\.window;\s*\*parts\.window = parts\.window\.saturating_sub\(consumed\);\s*"
-               r"self\.flow_control\.window = self\.flow_control\.window\.saturating_sub\(consumed\);",
-         "write_streams no longer subtracts the consumed bytes from both the stream and the connection window"),
-        (code, r"max_frame_size: self\.peer_settings\.settings_max_frame_size as usize,",
-         "write_streams no longer hands the peer's SETTINGS_MAX_FRAME_SIZE to the converter"),
-        (code, r"if increment == 0 \{\s*if stream_id == 0 \{.{0,300}?return self\.goaway\(H2Error::ProtocolError\);",
-         "handle_window_update_frame: zero increment on stream 0 is no longer GOAWAY(PROTOCOL_ERROR)"),
-        (code, r"self\.flow_control\.window\.checked_add\(increment\)",
-         "handle_window_update_frame no longer uses checked_add on the connection window"),
-        (code, r"stream_window\.checked_add\(increment\)",
-         "handle_window_update_frame no longer uses checked_add on the stream window"),
-        (code, r"return self\.goaway\(H2Error::FlowControlError\);",
-         "handle_window_update_frame: connection window overflow is no longer GOAWAY(FLOW_CONTROL_ERROR)"),
-        (code, r"if self\.flow_control\.window <= 0 && window > 0 \{\s*self\.readiness\.arm_writable\(\);",
-         "handle_window_update_frame no longer arms WRITABLE when the connection window becomes positive"),
-        (code, r"if \*stream_window <= 0 && window > 0 \{\s*self\.readiness\.arm_writable\(\);",
-         "handle_window_update_frame no longer arms WRITABLE when a stream window becomes positive"),
-        (code, r"if value > FLOW_CONTROL_MAX_WINDOW \{\s*return true;",
-         "update_initial_window_size no longer rejects values above 2^31-1"),
-        (code, r"match stream_window\.checked_add\(delta\) \{\s*Some\(new_window\) => \{\s*open_window \|= \*stream_window <= 0 && new_window > 0;\s*\*stream_window = new_window;",
-         "update_initial_window_size no longer applies the delta with checked_add to every stream"),
-        (code, r"match stream_window\.checked_add\(delta\) \{.{0,400}?None => return true,",
-         "update_initial_window_size no longer reports a stream-window overflow as an error"),
-        (code, r"if self\.update_initial_window_size\(v, context\) \{.{0,200}?return self\.goaway\(H2Error::FlowControlError\);",
-         "handle_settings_frame: an invalid SETTINGS_INITIAL_WINDOW_SIZE is no longer GOAWAY(FLOW_CONTROL_ERROR)"),
-        (code, r"if self\.streams\.len\(\) >= self\.peer_settings\.settings_max_concurrent_streams as usize \{",
-         "start_stream no longer tests the peer's MAX_CONCURRENT_STREAMS"),
-        (code, r"!\(MIN_MAX_FRAME_SIZE\.\.MAX_MAX_FRAME_SIZE\)\.contains\(&v\)",
-         "handle_settings_frame no longer validates SETTINGS_MAX_FRAME_SIZE"),
-        (code, r"\*existing = existing\.saturating_add\(increment\)\.min\(max_increment\);",
-         "queue_window_update no longer coalesces with saturation at 2^31-1"),
-        (code, r"\*s\.split\(&self\.position\)\.window =\s*i32::try_from\(self\.peer_settings\.settings_initial_window_size\)",
-         "start_stream no longer initialises the stream's send window from this peer's SETTINGS_INITIAL_WINDOW_SIZE"),
-        (code, r"let stream_window = if is_client \{\s*&mut stream\.backend_window\s*\} else \{\s*&mut stream\.window\s*\};.{0,200}?let stream_window_before",
-         "handle_window_update_frame no longer picks the window of its own direction"),
-        (ss, r"Position::Client\(\.\.\) => StreamParts \{\s*window: &mut self\.backend_window,",
-         "Stream::split no longer gives a backend connection its own send window"),
-        (code, r"endpoint\.readiness_mut\(token\)\.arm_writable\(\);\s*incr!\(names::h2::SIGNAL_WRITABLE_REARMED_PEER_DATA\);",
-         "handle_data_frame no longer arms WRITABLE on the linked endpoint when it queues body bytes for it"),
-        (code, r"if open_window \{\s*self\.readiness\.arm_writable\(\);",
-         "update_initial_window_size no longer arms WRITABLE when a SETTINGS change re-opens a stream window"),
-        (code, r"self\.flow_control\.received_bytes_since_update \+= wire_payload_len;\s*if self\.flow_control\.received_bytes_since_update >= conn_threshold \{\s*let increment = self\.flow_control\.received_bytes_since_update;\s*self\.queue_window_update\(0, increment\);\s*self\.flow_control\.received_bytes_since_update = 0;",
-         "handle_data_frame no longer credits the connection window with the whole wire payload (padding included) of every DATA frame"),
-        (code, r"if !data\.end_stream \{\s*if is_unlinked \{.{0,120}?self\.queue_window_update\(data\.stream_id, wire_payload_len\);\s*\} else \{\s*\*self\.recv_credit_owed\.entry\(data\.stream_id\)\.or_insert\(0\) \+= wire_payload_len;",
-         "handle_data_frame no longer owes the stream the whole wire payload (padding included) of a DATA frame (credited at once only when the payload is discarded)"),
-        (code, r"settings_initial_window_size: DEFAULT_INITIAL_WINDOW_SIZE\.min\(buffer\.capacity\(\) as u32\),",
-         "ConnectionH2::new no longer announces a stream window of at most the stream buffer capacity"),
-        (code, r"fn release_stream_credit<L>.{0,200}?let announced = self\.local_settings\.settings_initial_window_size;.{0,400}?let kawa = match self\.position \{\s*Position::Client\(\.\.\) => &stream\.back,\s*Position::Server => &stream\.front,\s*\};\s*let peer_window = announced\.saturating_sub\(\*owed\);\s*let room = \(kawa\.storage\.available_space\(\) as u32\)\.saturating_sub\(peer_window\);\s*let grant = room\.min\(\*owed\);\s*if grant > 0 \{\s*\*owed -= grant;\s*grants\.push\(\(stream_id, grant\)\);",
-         "release_stream_credit no longer grants min(owed, free space of the buffer read into - the peer's remaining window)"),
-        (code, r"for &\(stream_id, grant\) in &grants \{\s*self\.queue_window_update\(stream_id, grant\);",
-         "release_stream_credit no longer queues the WINDOW_UPDATE of what it grants"),
-        (code, r"pub fn try_resume_reading<L>.{0,120}?\{\s*let credited = self\.release_stream_credit\(context\);",
-         "try_resume_reading (run after the other side of the session wrote) no longer releases stream credit"),
-        (ms, r"// Cross-readiness: backend wrote . wake frontend reader\s*let context = &mut self\.context;\s*self\.frontend\.try_resume_reading\(context\);",
-         "Mux::ready no longer lets the frontend resume reading / release credit after a backend wrote"),
-        (ms, r"for \(_token, backend\) in self\.router\.backends\.iter_mut\(\) \{.{0,700}?if backend\.try_resume_reading\(context\)[^{]{0,300}\{\s*all_backends_readiness_are_empty = false;",
-         "Mux::ready no longer lets the backends resume reading / release credit after the frontend wrote"),
-        (code, r"if self\.wire_opened\.len\(\) >= limit \|\| lowest_unopened != Some\(stream_id\) \{\s*continue;",
-         "write_streams no longer holds back a backend stream that would exceed the peer's MAX_CONCURRENT_STREAMS"),
-        (code, r"parser::SETTINGS_MAX_CONCURRENT_STREAMS => \{ self\.peer_settings\.settings_max_concurrent_streams = v;",
-         "handle_settings_frame no longer stores the peer's MAX_CONCURRENT_STREAMS as announced"),
-        (code, r"self\.pending_rst_streams\.push\(\(id, H2Error::Cancel\)\);",
-         "end_stream on a backend connection no longer queues the RST_STREAM(CANCEL) of a cancelled request"),
-        (ms, r"let mut backend_ready = client\.readiness\(\)\.filter_interest\(\);\s*if dead \{\s*backend_ready\.remove\(Ready::HUP\);\s*backend_ready\.remove\(Ready::ERROR\);\s*\}\s*if !backend_ready\.is_empty\(\) \{\s*all_backends_readiness_are_empty = false;",
-         "Mux::ready counts the HUP/ERROR bits of a hung-up backend as pending work again (spins until MAX_LOOP_ITERATIONS closes the session)"),
-        (cs, r"self\.window -= i32::try_from\(payload_len\)\.unwrap_or\(i32::MAX\);",
-         "converter DATA arm no longer subtracts the payload from its window"),
-    ]
-    for (src, rx, msg) in shapes:
-        if not re.search(rx, src, re.S):
-            fails.append(msg)
+            m = h2.find(where[0], where[1]) if where else None
+        except rsfacts.Unreadable:
+            m = None
+        if m and m.group("v").isdigit():
+            consts[n] = int(m.group("v"))
+        else:
+            fails.append("h2.rs: constant %s found neither by name nor by its use" % n)
+    for fact in FACTS:
+        (k, fn, pats, msg), times = fact[:4], (fact[4] if len(fact) > 4 else 1)
+        try:
+            if times == 1:
+                found = any(srcs[k].find(fn, p) for p in pats)
+            else:
+                nf = " " + srcs[k].body(fn) + " "
+                found = max(len(rsfacts.compile_pattern(p).findall(nf)) for p in pats) >= times
+            if not found:
+                fails.append(msg)
+        except rsfacts.Unreadable as ex:
+            fails.append("%s (%s)" % (msg, ex))
+        except Exception as ex:
+            fails.append("%s (translator error %r)" % (msg, ex))
     if len(consts) == len(H2_CONSTS):
         lines = ["(* GENERATED by props/c14.py:translate from /repo/lib/src/protocol/mux/h2.rs — do not edit. *)",
                  "From Coq Require Import ZArith.", "Open Scope Z_scope.", ""]
